@@ -86,7 +86,7 @@ def ctor_state(fx, R):
     # the expected-rate constructor delegates to the default one and calls initialize(expectedRate)
     deleg = any(i.get('delegating') for i in rate[0].get('inits', []))
     calls = [deep_unwrap(sx(x['e'])) for x in walk(rate[0]['body']) if x.get('k') == 'Expr']
-    R.check(deleg and calls == [('.initialize', 'this', 'expectedRate')], 'M1', 'RateMonitoring:rate-constructor',
+    R.form(deleg and calls == [('.initialize', 'this', 'expectedRate')], 'M1', 'RateMonitoring:rate-constructor',
             'RateMonitoring(expectedRate) does not delegate to the default constructor and call initialize(expectedRate): %s' % (calls,),
             'delegates + initialize(expectedRate)', fx.rel(rate[0]['loc']), 'E-STATE')
     return c
@@ -161,7 +161,7 @@ def check_update(fx, R, fu, ft):
                 'returns the current rate', fx.rel(fu['loc']), 'E-STATE')
     fg = fx.one(Q + 'getRate')
     sg = sym.Reader(fx).run(fg)
-    R.check(len(sg) == 1 and isinstance(sg[0].ret, sp.Symbol) and sg[0].ret.name == 'this.rate_', 'M2', 'RateMonitoring::getRate', 'getRate returns %s' % [s.ret for s in sg],
+    R.form(len(sg) == 1 and isinstance(sg[0].ret, sp.Symbol) and sg[0].ret.name == 'this.rate_', 'M2', 'RateMonitoring::getRate', 'getRate returns %s' % [s.ret for s in sg],
             'returns the stored rate', fx.rel(fg['loc']), 'E-STATE')
 
 
@@ -290,12 +290,12 @@ def check_wiring(fx, R):
         R.check(okh, 'M4', cname + '::heartBeatCallback', whyh, 'timeout <=> STALE + empty value + returns false', fx.rel(fh['loc']), 'E-STATE')
         pg = sym.Reader(fx, call_hook=hook).run(fg)
         okg = len(pg) == 1 and isinstance(pg[0].ret, sp.Symbol) and pg[0].ret.name == 'this.checkup_.report_'
-        R.check(okg, 'M4', cname + '::getReport', 'getReport returns %s, not the wrapped check-up\'s report' % [s.ret for s in pg], 'returns the check-up report', fx.rel(fg['loc']), 'E-STATE')
+        R.form(okg, 'M4', cname + '::getReport', 'getReport returns %s, not the wrapped check-up\'s report' % [s.ret for s in pg], 'returns the check-up report', fx.rel(fg['loc']), 'E-STATE')
         inits = {i.get('field'): deep_unwrap(sx(i['e'])) for i in ctor[0]['inits'] if i.get('field')}
         rm, ck = inits.get('rateMonitoring_'), inits.get('checkup_')
         okc = rm == ('new:RateMonitoring', 'rate') and isinstance(ck, tuple) and len(ck) == 5 and ck[1] == ('+', 'name', '_rate') and ck[2] == 'rate' and ck[3] == 'espilon' \
             and ck[4] == ('new:Diagnostic', 'romea::core::DiagnosticStatus::ERROR', ('+', 'no data received from ', 'name'))
-        R.check(okc, 'M4', cname + ':constructor', 'constructor wiring differs: monitor %s, check-up %s' % (rm, ck),
+        R.form(okc, 'M4', cname + ':constructor', 'constructor wiring differs: monitor %s, check-up %s' % (rm, ck),
                 'monitor(rate); check-up(name_rate, rate, epsilon, ERROR "no data received from <name>")', fx.rel(ctor[0]['loc']), 'E-STATE')
 
 
